@@ -5,12 +5,12 @@ CONSTANTS
   MaxSteps = 9
   Bases <- BaseAll
   Layouts <- LayMid
-  Counts <- HostCounts
-  Lens <- HostLens
+  Counts <- SmallCounts
+  Lens <- SmallLens
   NilMiner = TRUE
   Kinds <- AllKinds
   InitPools = "empty"
-  MalClasses <- MalAll
+  MalClasses <- MalEvery
   GuardFit = TRUE
   Huge = 99
   EmitOn = TRUE
